@@ -545,7 +545,7 @@ theorem udp_wrong_direction_never_delivered (openF : Bytes → Bytes → Option 
     · simp [route, h]
     · simp [route, dispatched, h]
     · simp [route, h]
-  simp [rxStep, hp, hr]
+  simp [rxStep, rxApply, hp, hr]
 
 /-! ## Non-vacuity and regressions -/
 
